@@ -270,11 +270,8 @@ func VerifH_C11_traditional() {
 	for i := 1; i < len(segReqs); i++ {
 		verifAssert("C11", "consecutive-media-sequence-numbers", segReqs[i] == segReqs[i-1]+1)
 	}
-	// request order: segment, playlist, segment, playlist ...
-	for i, r := range verifReqLog {
-		isPl := containsStr(r.url, ".m3u8")
-		verifAssert("C11", "playlist-refetched-between-segments", isPl == (i%2 == 1))
-	}
+	// (the order of playlist reloads and segment requests is not part of the statement: a client that skips a reload
+	// because the next segment is already listed is as correct as one that reloads every time)
 	_ = rerr
 }
 
